@@ -580,7 +580,10 @@ func (r *c07Runner) cand(a []string, o *Oracle) string {
 	}
 	if hasNV {
 		// timestamp of the transaction = timestamp of the block (inside the expiry window)
-		nvTx = test.NewTx().SetNextBlockVersion(&nvK).SetTimestamp(ts).Bytes()
+		// unique per cand op of the case (siblings share their candidate's transaction): a later
+		// block of the same chain must never repeat a transaction (DuplicateTx is not C07's business)
+		nonce := "c07-" + strconv.Itoa(r.serial)
+		nvTx = test.NewTx().SetNextBlockVersion(&nvK).SetTimestamp(ts).SetVarTest(&nonce).Bytes()
 		tx, terr := r.nd.SM.TransactionFromBytes(nvTx, module.BlockVersion2)
 		if terr != nil {
 			return "harness-error:tx:" + c07Short(terr.Error())
